@@ -280,8 +280,18 @@ func genCase(r *vh.Rand, id string, size int) string {
 				default:
 					g.ops = append(g.ops, fmt.Sprintf("I %d %d", []int{0, 0, 1, 3, 1000}[r.Intn(5)], []int{0, 0, 1, 2}[r.Intn(4)]))
 				}
-			} else {
+			} else if r.Chance(1, 2) {
 				g.ops = append(g.ops, fmt.Sprintf("M %d %d", []int{0, 0, 1, 3, 1000}[r.Intn(5)], []int{0, 0, 1, 4, 1000}[r.Intn(5)]))
+			} else {
+				// B lags, receives its snapshot from A and is then the one that has to bring a follower up to date
+				if r.Chance(2, 3) {
+					g.ops = append(g.ops, "L")
+					for i, n := 0, 1+r.Intn(4); i < n; i++ {
+						g.sessionEntry()
+					}
+					g.ops = append(g.ops, "b")
+				}
+				g.ops = append(g.ops, fmt.Sprintf("V %d %d", []int{0, 0, 1, 3}[r.Intn(4)], []int{0, 0, 1, 4, 1000}[r.Intn(5)]))
 			}
 		default:
 			if r.Chance(1, 10) {
